@@ -454,8 +454,12 @@ func (w *vfWorld) connByID(id string) *vfConn {
 // vfNewWorld creates and runs a Node (memory engines) whose stream broker is wrapped by vfBrokerProxy.
 // pre, when non-nil, runs after New and before Run (to set handlers / swap engines).
 func vfNewWorld(cfg Config, pre func(w *vfWorld)) (*vfWorld, error) {
-	cfg.LogLevel = LogLevelNone
-	cfg.LogHandler = nil
+	if cfg.LogHandler == nil {
+		cfg.LogLevel = LogLevelNone
+	}
+	// A check may pass its own LogHandler (+ LogLevel): log entries are a plug-in boundary too and can serve as
+	// gates at points that have no other interface call (e.g. "client subscribed to channel" after the recovery
+	// buffer was locked, or the trace entry written just before a push is encoded).
 	n, err := New(cfg)
 	if err != nil {
 		return nil, err
